@@ -19,9 +19,16 @@ func readPoints(r io.Reader, byteOrder binary.ByteOrder) ([]geom.Point, error) {
 	if err := binary.Read(r, byteOrder, &numPoints); err != nil {
 		return nil, err
 	}
-	points := make([]geom.Point, numPoints)
-	if err := binary.Read(r, byteOrder, &points); err != nil {
-		return nil, err
+	// Read the points in chunks so that the memory used is bounded by the
+	// amount of data that is actually present.
+	points := make([]geom.Point, 0, prealloc(numPoints))
+	for remaining := numPoints; remaining > 0; {
+		chunk := make([]geom.Point, prealloc(remaining))
+		if err := binary.Read(r, byteOrder, &chunk); err != nil {
+			return nil, err
+		}
+		points = append(points, chunk...)
+		remaining -= uint32(len(chunk))
 	}
 	return points, nil
 }
